@@ -51,9 +51,18 @@ def loop_nodes(L):
         # the gate's target accumulates into the carried variable itself; a later body node (which also runs once at
         # entry, its inputs being supplied) emits the end-of-iteration signal the gate waits for
         nodes.append({"k": "func", "name": "b0", "params": ["i"] + (["step"] if L.get("step_input") else []), "defaults": {}, "outs": ["i"], "expr": f"i + {stepexpr}"})
-        nodes.append({"k": "func", "name": "b1", "params": ["i", "tot"], "defaults": {}, "outs": ["tot"], "emit": ["tick"], "expr": "tot + (i,)"})
+        # k == 2: b1(i, tot) accumulates and emits the signal one superstep after i changed; k > 2: pass-through nodes in between, so
+        # the gate's data input changes SEVERAL supersteps before the signal it waits for is produced again
+        src = "i"
+        for j in range(1, max(2, k) - 1):
+            nodes.append({"k": "func", "name": f"b{j}", "params": [src], "defaults": {}, "outs": [f"t{j}"], "expr": f"('t', {j}, {'i' if src == 'i' else src + '[2]'})"})
+            src = f"t{j}"
+        last = max(2, k) - 1
+        nodes.append({"k": "func", "name": f"b{last}", "params": [src, "tot"], "defaults": {}, "outs": ["tot"], "emit": ["tick"], "expr": f"tot + ({'i' if src == 'i' else src + '[2]'},)"})
         stop = "done" if L["exit"] == "node" else "END"
-        g = {"name": "g", "defaults": {}, "default_open": True, "params": ["i"] + lim_in, "wait_for": ["tick"]}
+        # (with pass-through nodes the signal only arrives two or more supersteps after i changed; a default-open target would
+        # legitimately start again meanwhile, so the longer form uses a closed gate and is a plain while-loop)
+        g = {"name": "g", "defaults": {}, "default_open": max(2, k) <= 2, "params": ["i"] + lim_in, "wait_for": ["tick"]}
         cond = f"i < {lim}"
         if L["gate"] == "ifelse":
             g.update({"k": "ifelse", "t": "b0", "f": stop, "expr": cond})
@@ -201,6 +210,8 @@ def eval_loop(L):
         i, tot, n = start, (start,), 0
         traj = {"i": [start], "tot": [(), (start,)]}
         while True:
+            if max(2, k) > 2 and not i < limit:
+                break  # closed gate: decides before the first iteration
             i += step
             tot += (i,)
             n += 1
@@ -209,6 +220,9 @@ def eval_loop(L):
             if not i < limit:
                 break
         env = {"i": i, "tot": tot}
+        for j in range(1, max(2, k) - 1):
+            env[f"t{j}"] = ("t", j, i)
+            traj[f"t{j}"] = [("t", j, v) for v in traj["i"]]
         if L["exit"] == "node":
             env["res"] = ("done", i)
             traj["res"] = [("done", v) for v in traj["i"]]
